@@ -412,7 +412,14 @@ def refmap_oracle(c, collide=False):
                         bad("get-wrong-value", "get returned bytes/flags that were never written", idx)
             else:
                 if o["res"] == "HIT":
-                    bad("get-resurrected", "get of a deleted/never written key returned a value", idx)
+                    got = (bytes.fromhex(o["out"][0]), int(o["out"][1]))
+                    grouped = k in {f[0] for f in (c["cfg"].get("forced") or [])}
+                    if collide and grouped and got in written.get(k, []):
+                        # a key of a forced same-hash group reads an OLDER write of itself although its last write was
+                        # a delete: the stale collision-table position of finding F15, with a delete as the newer write
+                        bad("get-stale-own-value", "get of a deleted key of a same-hash group returned an OLDER value of the same key", idx)
+                    else:
+                        bad("get-resurrected", "get of a deleted/never written key returned a value", idx)
                 elif o["res"] != "MISS":
                     bad("get-error", "get of an absent key answered %s" % o["res"], idx)
         elif t == "M":
